@@ -137,6 +137,56 @@ def wl_wide_fingerprints(ctx, rng, case):
     case.nontrivial = True
 
 
+def wl_big_loaded_tables(ctx, rng, case):
+    """tables of more slots than any block a loader might read at once (9 000 .. 40 000 slots), with bucket sizes that divide no power of
+    two as well as ones that do, obtained by loading an export through every loader: judged by the explicit invariant (and a few public
+    calls under the icontract invariant)"""
+    if not ctx.state.get("icontract"):
+        raise Inconclusive("icontract unavailable")
+    import probables as P
+
+    counting = case.index % 2 == 0
+    cap, bsz = rng.choice([(3000, 5), (4000, 3), (2500, 7), (10000, 3), (10000, 4), (9001, 1), (3000, 6), (5000, 8)])
+    cls = P.CountingCuckooFilter if counting else P.CuckooFilter
+    f = cls(capacity=cap, bucket_size=bsz, max_swaps=100, auto_expand=False, finger_size=4)
+    n = min(2500, cap * bsz // 5)
+    for i in range(n):
+        f.add(f"big-{case.index}-{i % (n * 2 // 3 + 1)}")  # a third of the keys twice
+    case.desc = {"cls": cls.__name__, "capacity": cap, "bucket_size": bsz, "additions": n, "kind": "big loaded table"}
+    sc = bl.Scratch(ctx, case)
+    contracts.new_case()
+    try:
+        p = sc.path("big")
+        f.export(p)
+        data = bytes(f)
+        from pathlib import Path as _Path
+
+        for lname, ld in (("frombytes", lambda: cls.frombytes(data)), ("filepath", lambda: cls(filepath=p)), ("filepath(Path)", lambda: cls(filepath=_Path(p)))):
+            try:
+                g = ld()
+                contracts.register(g, None, 2, counting)
+                g.fingerprint_size = 4
+            except contracts.InvariantBroken as e:
+                ctx.fail(f"icontract invariant fired on a {cap}x{bsz} table while it was loaded via {lname}: {e}")
+            probs = contracts.table_problems(g, contracts.REG[id(g)])
+            ctx.counters["oracle_evaluations"] += 1
+            if probs:
+                ctx.fail(f"table of a {cap}x{bsz} filter loaded via {lname} is not well-formed: " + "; ".join(probs[:3]), problems=len(probs))
+            ctx.check(g.capacity == cap and g.bucket_size == bsz and g.elements_added == f.elements_added, f"loaded {cap}x{bsz} filter ({lname}) has another shape or element count",
+                      got=(g.capacity, g.bucket_size, g.elements_added), want=(cap, bsz, f.elements_added))
+            try:
+                g.check(f"big-{case.index}-0")
+                g.add(f"big-{case.index}-1")
+                g.remove(f"big-{case.index}-2")
+            except contracts.InvariantBroken as e:
+                ctx.fail(f"icontract invariant fired on a loaded {cap}x{bsz} table ({lname}): {e}")
+            ctx.count("big_loaded_tables_judged")
+    finally:
+        contracts.unregister_all()
+        sc.cleanup()
+    case.nontrivial = True
+
+
 def wl_long(ctx, rng, case):
     """long-lived tables under the invariant: 40-100 operations on tiny auto-expanding tables (several expansions, removals, reloads)"""
     if not ctx.state.get("icontract"):
@@ -210,6 +260,7 @@ PROP = Prop(
         Workload("remove_readd", wl_remove_readd, quick=100, thorough=2500),
         Workload("histories", wl_histories, quick=200, thorough=4000),
         Workload("long", wl_long, quick=30, thorough=1500),
+        Workload("big_loaded_tables", wl_big_loaded_tables, quick=6, thorough=60),
         Workload("wide_fingerprints", wl_wide_fingerprints, quick=48, thorough=1200),
     ],
     assumptions=["candidate buckets are recomputed independently: fp mod capacity and hash(str(fp)) mod capacity with the hash function the harness supplied "
